@@ -909,3 +909,77 @@ Definition tq_oracle (lim : bool) (ops obs : list (list Z)) : bool :=
       && forallb (fun cr => zlist_eqb' (snd cr) (expected_for (fst cr) who (s_futs sfin))) (combine cons recv)   (* d *)
       && zlist_eqb' drained (match bal sfin with BItems l => l | BWait _ => [] end)
   end.
+
+(* =====================================================================================
+   Callback consumers (engine qcb): a consumer that is not a coroutine but a callback awaiter
+   (call_fn_future_awaiter, future.h 1023-1061) whose completion callback records the outcome and asks for the next
+   item from inside the callback (`start()` again) while its budget lasts.  The callback runs synchronously inside the
+   promise resolution, which queue.h performs AFTER leaving the critical section (153-154, 228-229), so the nested pop()
+   is an ordinary pop issued in the middle of the push / unblock_pop.  A canceled outcome (queue destroyed) ends the consumer.
+   ===================================================================================== *)
+Inductive cop := COp (x : qop) | CPopCb (k : nat) | CBad.
+Record cqueue := mkCQ { cbase : queue; cbud : list (nat * nat) }.    (* parked callback pops: future id -> re-pops left *)
+Definition cq0 : cqueue := mkCQ q0 [].
+
+Definition is_pending (f : fstate) : bool := match f with FPending => true | _ => false end.
+
+(* the callback of a pop that just completed (value or exception) with k re-pops left *)
+Fixpoint cb_chain (k : nat) (q : queue) (cb : list (nat * nat)) : queue * list (nat * nat) :=
+  match k with
+  | O => (q, cb)
+  | S k' =>
+      let '(q1, id) := q_pop q in
+      if is_pending (fget (futs q1) id) then (q1, cb ++ [(id, k')]) else cb_chain k' q1 cb
+  end.
+
+Definition head_waiter (q : queue) : option nat := match waiters q with p :: _ => Some p | [] => None end.
+
+Definition cq_after_resolve (old : queue) (q1 : queue) (cb : list (nat * nat)) : queue * list (nat * nat) :=
+  match head_waiter old with
+  | Some p => match afind p cb with
+              | Some k => cb_chain k q1 (aremove p cb)
+              | None => (q1, cb)
+              end
+  | None => (q1, cb)
+  end.
+
+Definition cq_step (s : cqueue) (x : cop) : cqueue * list Z :=
+  let q := cbase s in
+  if negb (alive q) then (s, rejected) else
+  match x with
+  | CPopCb k =>
+      let '(q1, id) := q_pop q in
+      let '(q2, cb) := if is_pending (fget (futs q1) id) then (q1, cbud s ++ [(id, k)]) else cb_chain k q1 (cbud s) in
+      (mkCQ q2 cb, q_obs q q2 (Z.of_nat id))
+  | COp (QPush v) =>
+      let '(q1, r) := q_push q v in
+      let '(q2, cb) := if r then cq_after_resolve q q1 (cbud s) else (q1, cbud s) in
+      (mkCQ q2 cb, q_obs q q2 (b2z r))
+  | COp (QUnblockPop e) =>
+      let '(q1, r) := q_unblock_pop q e in
+      let '(q2, cb) := if r then cq_after_resolve q q1 (cbud s) else (q1, cbud s) in
+      (mkCQ q2 cb, q_obs q q2 (b2z r))
+  | COp QDestroy => let q1 := q_destroy q in (mkCQ q1 [], q_obs q q1 0)
+  | COp QPop => let '(q1, o) := q_step q QPop in (mkCQ q1 (cbud s), o)
+  | COp QSize => let '(q1, o) := q_step q QSize in (mkCQ q1 (cbud s), o)
+  | _ => (s, rejected)
+  end.
+
+Fixpoint cq_run_from (s : cqueue) (l : list cop) : list (list Z) * cqueue :=
+  match l with
+  | [] => ([], s)
+  | x :: t => let '(s1, o) := cq_step s x in
+              let '(os, s2) := cq_run_from s1 t in (o :: os, s2)
+  end.
+
+Definition cq_decode (l : list Z) : cop :=
+  match l with
+  | [6; k] => if 0 <=? k then CPopCb (Z.to_nat k) else CBad
+  | [1; _] | [2] | [3; _] | [4] | [5] => COp (q_decode l)
+  | _ => CBad
+  end.
+Definition cq_run (ops : list (list Z)) : list (list Z) := fst (cq_run_from cq0 (map cq_decode ops)).
+
+(* oracle on the implementation's trace: values reported by the pop futures, read in future-id (= pop arrival) order,
+   are a duplicate-free prefix of the pushed values *)
+Definition cq_oracle (ops obs : list (list Z)) : bool := q2_oracle ops obs.
